@@ -360,6 +360,7 @@ class PlaceProp(core.Prop):
             "encodings, 1-3 resets on the same state object, dirty prior worlds (moved/dead agents), short tapes. "
             "distinct by (static world, prior world, options, tape); non-trivial = some agent is placed freely or "
             "the reset fails (maze: more than one cell)")
+    rule += ("; " + "histories on one state object: options switched and the target's initial position re-assigned through the setters between resets; a share of BIG worlds (9..13 rows, 10..24 agents, up to 11 encodings) and grids with two-digit coordinates")
     assumptions = [
         "np.linalg.norm as sort key is modelled by the squared integer distance (same order)",
         "list(set(..)) in generate_maze iterates in insertion order (ordered set injected into gridworld.utils)",
